@@ -36,34 +36,34 @@ type LoopSpec struct {
 }
 
 type Contract struct {
-	File     string
-	Line     int
-	PkgPath  string // import path relative to module root, e.g. "factstore"
-	Recv     string // receiver type name without '*', "" for functions
-	Name     string
-	Params   []string // optional parameter names given in the header
-	Mode     Mode
-	Pure     bool
-	Trusted  bool // contract is assumed (body not verified)
-	NoOvf    bool
-	Requires []*Clause
-	Ensures  []*Clause
-	Modifies []*Clause
-	HasMod   bool
-	Loops    map[int]*LoopSpec
-	Decr     *Clause
-	Unfold   []*Clause
-	UnfoldAt []*Clause
-	Uses     []*Clause
-	Emits    []*Clause
-	Asserts  []*Clause // ghost statements keyed by position marker
-	Opts     map[string]string
-	Replay   string
+	File         string
+	Line         int
+	PkgPath      string // import path relative to module root, e.g. "factstore"
+	Recv         string // receiver type name without '*', "" for functions
+	Name         string
+	Params       []string // optional parameter names given in the header
+	Mode         Mode
+	Pure         bool
+	Trusted      bool // contract is assumed (body not verified)
+	NoOvf        bool
+	Requires     []*Clause
+	Ensures      []*Clause
+	Modifies     []*Clause
+	HasMod       bool
+	Loops        map[int]*LoopSpec
+	Decr         *Clause
+	Unfold       []*Clause
+	UnfoldAt     []*Clause
+	Uses         []*Clause
+	Emits        []*Clause
+	Asserts      []*Clause // ghost statements keyed by position marker
+	Opts         map[string]string
+	Replay       string
 	BehavAssumes map[string][]*Clause
-	Guards   []*Guard
-	ModAll    bool
-	ModExcept []string // with ModAll: components (pkg-local "Type.field") that are NOT modified
-	All      []*Clause
+	Guards       []*Guard
+	ModAll       bool
+	ModExcept    []string // with ModAll: components (pkg-local "Type.field") that are NOT modified
+	All          []*Clause
 }
 
 func (c *Contract) Key() string {
@@ -87,21 +87,21 @@ type SpecFunc struct {
 }
 
 type Lemma struct {
-	PkgPath string
-	Name    string
-	Params  []QVar
-	Body    Expr
-	Induct  []Expr // smaller arguments for which the lemma may be assumed (first param replaced)
-	Axiom   bool
-	Uses    []Expr
-	Unfold  []Expr
+	PkgPath  string
+	Name     string
+	Params   []QVar
+	Body     Expr
+	Induct   []Expr // smaller arguments for which the lemma may be assumed (first param replaced)
+	Axiom    bool
+	Uses     []Expr
+	Unfold   []Expr
 	UnfoldAt []Expr
-	Decr    Expr
-	Auto    bool // axiom included (universally quantified) wherever the spec functions it mentions are used
-	Text    string
-	File    string
-	Line    int
-	Mode    Mode
+	Decr     Expr
+	Auto     bool // axiom included (universally quantified) wherever the spec functions it mentions are used
+	Text     string
+	File     string
+	Line     int
+	Mode     Mode
 }
 
 type GlobalSpec struct { // assumed value of a package-level variable field
